@@ -205,6 +205,9 @@ func buildWorld(rt *rapid.T, t *testing.T) *world {
 	for _, to := range []int{A0, A1, A2} {
 		must(rt, "mint d4", c.Exec(tftypes.NewMsgMintTo(chain.Actor(A1).String(), coin(d4, 1_000_000), chain.Actor(to).String())))
 	}
+	// the lockup module account holds factory tokens (somebody locked them), so reaching into it would have an effect
+	mkLock(A2, d1, osmomath.NewInt(5000), time.Hour)
+	delete(w.lockOwner, c.App.LockupKeeper.GetLastLockID(c.Ctx))
 	must(rt, "change admin", c.Exec(tftypes.NewMsgChangeAdmin(chain.Actor(A0).String(), d2, chain.Actor(A1).String())))
 	w.denAdmin[d2], w.denPrev[d2] = A1, A0
 	// a renounced admin is the empty admin string: reachable through genesis / contract bindings, not
@@ -420,7 +423,11 @@ func (w *world) attempts(rt *rapid.T) attempt {
 			}
 		}
 		mods := []string{lockuptypes.ModuleName, gammtypes.ModuleName, govtypes.ModuleName, "distribution", sftypes.ModuleName, tftypes.ModuleName, "bonded_tokens_pool"}
-		m := authtypes.NewModuleAddress(mods[rapid.IntRange(0, len(mods)-1).Draw(rt, "module")]).String()
+		mi := rapid.IntRange(0, len(mods)-1).Draw(rt, "module")
+		if rapid.Bool().Draw(rt, "holdingModule") {
+			mi = 0 // lockup: holds the denom
+		}
+		m := authtypes.NewModuleAddress(mods[mi]).String()
 		a := attempt{obj: "module account via " + d[len(d)-8:], owner: -1, prevOwner: -2}
 		switch rapid.IntRange(0, 3).Draw(rt, "modMsg") {
 		case 0:
